@@ -56,17 +56,30 @@ class Var:
 
 
 class Env:
-    def __init__(self, em, vars=None):
+    def __init__(self, em, vars=None, outer=None):
         self.em = em
         self.vars = dict(vars or {})
+        # variables hidden by a later binding of the same name (decl -> Var): a shadowed variable
+        # keeps its value, and a loop / join that carries it must still find it
+        self.outer = dict(outer or {})
 
     def copy(self):
-        return Env(self.em, self.vars)
+        return Env(self.em, self.vars, self.outer)
 
     def bind(self, name, coq, ty, mut=False):
         e = self.copy()
+        old = e.vars.get(name)
+        if old is not None:
+            e.outer[old.decl] = old
         e.vars[name] = Var(coq, ty, mut)
         return e
+
+    def by_decl(self, name, decl):
+        """the variable declared as `decl` (named `name` unless shadowed)"""
+        v = self.vars.get(name)
+        if v is not None and v.decl == decl:
+            return v
+        return self.outer.get(decl, v)
 
     def rebind(self, name, coq):
         e = self.copy()
@@ -125,6 +138,16 @@ class Emitter:
         walk({k: v for k, v in vocab.items() if k in ("enums", "structs", "consts", "sinks", "fns", "methods", "features", "config_param", "reserved", "iter_conv")})
         self.reserved = words
 
+    # the vocabulary key `result` has two forms: {err: <coq type>} -- io::Result<T> as the sum T + err
+    # (inl / inr); {coq, ok, err} -- a two-constructor inductive
+    def res_sum(self):
+        r = self.v.get("result")
+        return bool(r) and "coq" not in r
+
+    def res_ind(self):
+        r = self.v.get("result")
+        return bool(r) and "coq" in r
+
     # -- names ---------------------------------------------------------------
     def fresh(self, base):
         base = base.strip("_") or "x"
@@ -166,6 +189,14 @@ class Emitter:
                 return ("opt", self.ty_of_ast(ty.args[0]))
             if name in ("Vec", "VecDeque", "ArrayVec") and ty.args:
                 return ("list", self.ty_of_ast(ty.args[0]))
+            if name == "Box" and ty.args:
+                return self.ty_of_ast(ty.args[0])     # Box<T> is T (ownership is not modelled)
+            if name == "Result" and ty.args and self.res_sum():
+                # io::Result<T> (vocabulary key `result`): the sum  T + <error type>
+                return ("res", self.ty_of_ast(ty.args[0]))
+            if name == "Result" and self.res_ind() and ty.args and len(ty.args) == 2:
+                # optional vocabulary key `result`: {coq, ok, err} -- a two-constructor inductive
+                return ("result", self.ty_of_ast(ty.args[0]), self.ty_of_ast(ty.args[1]))
             if name in self.v.get("enums", {}):
                 return ("enum", name)
             if name in self.v.get("structs", {}):
@@ -195,6 +226,10 @@ class Emitter:
             return t[1]
         if k == "sink":
             return self.v["sinks"][t[1]]["coq"]
+        if k == "res":
+            return "(%s + %s)" % (self.coq_ty(t[1]), self.v["result"]["err"])
+        if k == "result" and self.res_ind():
+            return "(%s %s %s)" % (self.v["result"]["coq"], self.coq_ty(t[1]), self.coq_ty(t[2]))
         return "_"
 
     # -- monad helpers -------------------------------------------------------
@@ -241,6 +276,8 @@ class Emitter:
                 e = e.e
             elif e.kind == "mcall" and e.name in ("as_mut", "as_ref", "by_ref", "borrow_mut") and not e.args:
                 e = e.recv
+            elif e.kind == "mcall" and not e.args and e.name in self.v.get("transparent_places", ()):
+                e = e.recv
             else:
                 return None
 
@@ -259,6 +296,12 @@ class Emitter:
         if place.kind == "unary" and place.op in ("*", "&mut"):
             # `*p = ..`, and an argument `&mut place` written back after a call
             return self.write_place(place.e, term, env, k)
+        if place.kind == "unary" and place.op == "&mut":
+            # `&mut place` handed to a `&mut` parameter: the callee's new value goes back to the place
+            return self.write_place(place.e, term, env, k)
+        if place.kind == "mcall" and not place.args and place.name in self.v.get("transparent_places", ()):
+            # vocabulary `transparent_places`: methods that hand out a write-through view of their receiver
+            return self.write_place(place.recv, term, env, k)
         if place.kind == "path" and len(place.segs) == 1:
             name = place.segs[0]
             v = env.get(name)
@@ -307,6 +350,10 @@ class Emitter:
         if e.kind in ("int",):
             return m(e, env, k, expect)
         return m(e, env, k)
+
+    def e_term(self, e, env, k):
+        """an already translated term (internal node, see e_mcall)"""
+        return k(e.term, e.ty, env)
 
     def e_paren(self, e, env, k):
         return self.expr(e.e, env, k)
@@ -426,7 +473,32 @@ class Emitter:
 
     CMP = {"==": "=?", "<": "<?", "<=": "<=?"}
 
+    def fold_literal(self, e):
+        """value of an expression built from unsuffixed integer literals only (rustc evaluates it at
+        compile time, at the type inferred from the context), else None"""
+        if e.kind == "paren":
+            return self.fold_literal(e.e)
+        if e.kind == "int":
+            return e.val if not e.suffix else None
+        if e.kind == "binary" and e.op in ("+", "-", "*", "<<"):
+            a, b = self.fold_literal(e.l), self.fold_literal(e.r)
+            if a is None or b is None:
+                return None
+            v = {"+": a + b, "-": a - b, "*": a * b, "<<": a << b if 0 <= b < 31 else -1}[e.op]
+            # a constant that overflows is rejected by rustc (deny(arithmetic_overflow)); the narrowest
+            # type it may adopt here is checked by the consumer (lit adopts the other operand's type)
+            if not 0 <= v < 2 ** 31:
+                raise EmitError("constant expression out of range")
+            return v
+        return None
+
     def e_binary(self, e, env, k):
+        if self.v.get("fold_literals") and e.op not in ("&&", "||"):
+            fl, fr = self.fold_literal(e.l), self.fold_literal(e.r)
+            if (fl is not None and e.l.kind != "int") or (fr is not None and e.r.kind != "int"):
+                e = N("binary", op=e.op,
+                      l=N("int", val=fl, suffix=None) if fl is not None else e.l,
+                      r=N("int", val=fr, suffix=None) if fr is not None else e.r)
         op = e.op
         if op in ("&&", "||"):
             def k1(a, aty, env1):
@@ -553,11 +625,20 @@ class Emitter:
 
     def e_index(self, e, env, k):
         def k1(base, bty, env1):
+            hook = self.v.get("index", {}).get(bty[1] if bty[0] in ("struct", "enum") else bty[0])
+            if hook is not None:
+                # vocabulary `index`: {type name: callable(em, e, base term, base type, env, k)}
+                return hook(self, e, base, bty, env1, k)
             elt = bty[1] if bty[0] == "list" else UNKNOWN
             if e.idx.kind == "range":
+                sl_fn, sl_ty = "slice", bty
+                if bty[0] == "struct" and self.v["structs"][bty[1]].get("index_range"):
+                    # optional struct key `index_range`: (slicing function, type of the slice)
+                    sl_fn, sl_ty = self.v["structs"][bty[1]]["index_range"]
+
                 def with_lo(lo, env2):
                     def with_hi(hi, env3):
-                        return self.bind("slice %s %s %s" % (base, lo, hi), bty, env3, k, hint="sl")
+                        return self.bind("%s %s %s %s" % (sl_fn, base, lo, hi), sl_ty, env3, k, hint="sl")
                     if e.idx.hi is None:
                         return with_hi("(len %s)" % base, env2)
                     if e.idx.incl:
@@ -604,6 +685,10 @@ class Emitter:
         return (e.kind == "call" and e.f.kind == "path" and e.f.segs[-2:] == ["Default", "default"] and not e.args)
 
     def e_assign(self, e, env, k):
+        # the type of a plain assigned variable, for vocabulary callables that need it (`Default::default()`)
+        self.assign_ty = None
+        if e.op == "=" and e.lhs.kind == "path" and len(e.lhs.segs) == 1 and env.get(e.lhs.segs[0]) is not None:
+            self.assign_ty = env.get(e.lhs.segs[0]).ty
         if e.op == "=" and self.default_call(e.rhs) and "defaults" in self.v:
             # `place = Default::default()`: the value is chosen by the type of the place
             # (optional vocabulary key defaults: {repr(type): term})
@@ -629,9 +714,9 @@ class Emitter:
     # -- joins ---------------------------------------------------------------
     def restrict(self, benv, env):
         """the view of branch environment benv on the variables of env"""
-        out = Env(self, {})
+        out = Env(self, {}, env.outer)
         for n, v in env.vars.items():
-            bv = benv.vars.get(n)
+            bv = benv.by_decl(n, v.decl)
             out.vars[n] = bv if (bv is not None and getattr(bv, "decl", None) == getattr(v, "decl", None)) else v
         return out
 
@@ -683,6 +768,8 @@ class Emitter:
         ty = next((t for _, t, _ in rec if t not in (UNKNOWN, ("never",))), rec[0][1])
         for _, t, _ in rec:
             if t[0] == "opt" and ty[0] == "opt" and ty[1] == UNKNOWN:
+                ty = t
+            if t[0] == "res" and ty[0] == "res" and ty[1] == UNKNOWN:
                 ty = t
         if not diverged and not self.pure_mode and "None (* no arm" not in code:
             # every branch falls through: the branching statement is an expression yielding the
@@ -835,6 +922,10 @@ class Emitter:
         if s.init is None or s.els is not None:
             raise EmitError("let without initialiser / let-else")
         ann = self.ty_of_ast(s.ty) if s.ty is not None else None
+        if ann is None and s.pat.kind == "pident":
+            # optional vocabulary key `local_types: {fn: {local: type}}`: the type of a local whose
+            # initialiser does not determine it (`let mut r = None;`)
+            ann = self.v.get("local_types", {}).get(getattr(self, "cur_fn", None), {}).get(s.pat.name)
 
         def k1(t, ty, env1):
             ty2 = ann if ann is not None and ann != UNKNOWN else ty
@@ -886,12 +977,40 @@ class Emitter:
         if k == "ppath":
             return True
         if k == "ptstruct":
+            if self.payload_variant(p) is not None:
+                return all(x.kind in ("pwild", "pident") or (x.kind == "pref" and x.inner.kind in ("pwild", "pident")) for x in p.elems)
+            if self.enum_payload(p) is not None:
+                return all(self.pat_is_ctor_like(x, UNKNOWN) for x in p.elems)
             return p.segs[-1] in ("Some", "Ok", "Err") and all(self.pat_is_ctor_like(x, UNKNOWN) for x in p.elems)
         if k == "ptuple":
             return all(self.pat_is_ctor_like(x, UNKNOWN) for x in p.elems)
         if k == "por":
             return all(self.pat_is_ctor_like(x, ty) for x in p.alts)
         return False
+
+    def payload_variant(self, p):
+        """(coq constructor, payload types) when the tuple-struct pattern names a data-carrying enum variant of the vocabulary"""
+        if len(p.segs) < 2:
+            return None
+        en = self.v.get("enums", {}).get(p.segs[-2])
+        if en is None:
+            return None
+        ent = en.get("payload", {}).get(p.segs[-1])
+        return ent if isinstance(ent, tuple) else None      # form (coq constructor, payload types); the list form is enum_payload's
+    def enum_payload(self, p):
+        """(constructor, payload types) when the tuple-struct pattern `p` names a variant with payload of a
+        vocabulary enum (optional key `payload: {variant: [types]}`), else None"""
+        if len(p.segs) < 2:
+            return None
+        en = self.v.get("enums", {}).get(self.self_struct if p.segs[-2] == "Self" and self.self_struct else p.segs[-2])
+        if en is None or p.segs[-1] not in en.get("payload", {}) or p.segs[-1] not in en["variants"]:
+            return None
+        if not isinstance(en["payload"][p.segs[-1]], list):
+            return None
+        tys = en["payload"][p.segs[-1]]
+        if len(tys) != len(p.elems):
+            raise EmitError("pattern %s: %d fields, the vocabulary models %d" % ("::".join(p.segs), len(p.elems), len(tys)))
+        return en["variants"][p.segs[-1]], tys
 
     def coq_pattern(self, p, ty, binds):
         """native Gallina pattern; binds collects (rust name, coq name, type)"""
@@ -914,9 +1033,29 @@ class Emitter:
             if en is None or name not in en["variants"]:
                 raise EmitError("pattern path %s" % "::".join(p.segs))
             return en["variants"][name]
+        if k == "ptstruct" and self.payload_variant(p) is not None:
+            # vocabulary enums[..]["payload"]: {variant: (coq constructor, [payload types] | None)};
+            # None = the payload is only ever matched with wildcards, (coq arity given as an int)
+            ctor, ptys = self.payload_variant(p)
+            if isinstance(ptys, int):
+                if not all(x.kind == "pwild" for x in p.elems):
+                    raise EmitError("payload of %s can only be matched with `_`" % ctor)
+                return "(%s %s)" % (ctor, " ".join("_" for _ in range(ptys)))
+            if len(ptys) != len(p.elems):
+                raise EmitError("pattern %s: %d fields, the vocabulary models %d" % (ctor, len(p.elems), len(ptys)))
+            return "(%s %s)" % (ctor, " ".join(self.coq_pattern(x, t, binds) for x, t in zip(p.elems, ptys)))
         if k == "ptstruct":
+            ep = self.enum_payload(p)
+            if ep is not None:
+                return "(%s %s)" % (ep[0], " ".join(self.coq_pattern(x, t, binds) for x, t in zip(p.elems, ep[1])))
             name = p.segs[-1]
             inner = ty[1] if ty[0] == "opt" else UNKNOWN
+            if ty[0] == "res" and name in ("Ok", "Err"):
+                inner = ty[1] if name == "Ok" else ("coq", self.v["result"]["err"])
+                name = "inl" if name == "Ok" else "inr"
+            if ty[0] == "result" and self.res_ind():
+                inner = ty[2] if name == "Err" else ty[1]
+                name = self.v["result"]["err" if name == "Err" else "ok"]
             return "(%s %s)" % (name, " ".join(self.coq_pattern(x, inner, binds) for x in p.elems))
         if k == "ptuple":
             tys = ty[1] if ty[0] == "tuple" and len(ty[1]) == len(p.elems) else [UNKNOWN] * len(p.elems)
@@ -935,6 +1074,9 @@ class Emitter:
         if k == "pident":
             binds.append((p.name, term, ty, p.mut))
             return None if p.sub is None else self.pat_test(p.sub, term, ty, binds)
+        if k == "plit" and getattr(p, "lk", None) in ("str", "bstr"):
+            # string literal pattern: decidable equality of the scrutinee's type (vocabulary `eqb`)
+            return "(%s %s [%s])" % (self.eqb_of(ty), term, "; ".join(str(b) for b in p.val))
         if k == "plit":
             if not is_int(ty):
                 ty = INT("usize")
@@ -961,6 +1103,102 @@ class Emitter:
             raise EmitError("nested tuple pattern in an if-chain match")
         raise EmitError("pattern %s in an if-chain match" % k)
 
+    # constructor patterns holding literals (`(Some(5), Some(x))`): neither a native Gallina match nor
+    # an if-chain; arm by arm `match .. with | pattern => if tests then body else <next arms> | _ => <next arms> end`
+    def needs_hybrid(self, arms, ncomp):
+        def has_ctor(p):
+            while p.kind == "pref":
+                p = p.inner
+            if p.kind == "ptstruct":
+                return True
+            if p.kind == "ptuple":
+                return any(has_ctor(x) for x in p.elems)
+            if p.kind == "por":
+                return any(has_ctor(x) for x in p.alts)
+            return False
+        return any(has_ctor(p) for p, _g, _b in arms)
+
+    def hybrid_pat(self, p, ty, binds, tests, term=None):
+        """Gallina pattern for p (variables for literals, tested afterwards); `term` is given for a
+        top-level component, whose plain identifier pattern binds the scrutinee itself"""
+        while p.kind == "pref":
+            p = p.inner
+        k = p.kind
+        if k == "pwild":
+            return "_"
+        if k == "pident" and p.sub is None:
+            if term is not None:
+                binds.append((p.name, term, ty, p.mut))
+                return "_"
+            n = self.fresh(p.name)
+            binds.append((p.name, n, ty, p.mut))
+            return n
+        if k in ("plit", "prange") or (k == "por" and all(x.kind in ("plit", "prange") for x in p.alts)):
+            if term is not None:
+                t = self.pat_test(p, term, ty, [])
+                tests.append(t)
+                return "_"
+            n = self.fresh("x")
+            tests.append(self.pat_test(p, n, ty, []))
+            return n
+        if k == "ppath":
+            return self.coq_pattern(p, ty, binds)
+        if k == "ptstruct":
+            name = p.segs[-1]
+            if name not in ("Some", "Ok", "Err") or len(p.elems) != 1:
+                raise EmitError("constructor pattern %s" % "::".join(p.segs))
+            inner = ty[1] if ty[0] == "opt" else UNKNOWN
+            if ty[0] == "result" and self.res_ind():
+                inner = ty[2] if name == "Err" else ty[1]
+                name = self.v["result"]["err" if name == "Err" else "ok"]
+            return "(%s %s)" % (name, self.hybrid_pat(p.elems[0], inner, binds, tests))
+        if k == "ptuple":
+            tys = ty[1] if ty[0] == "tuple" and len(ty[1]) == len(p.elems) else [UNKNOWN] * len(p.elems)
+            return "(" + ", ".join(self.hybrid_pat(x, t, binds, tests) for x, t in zip(p.elems, tys)) + ")"
+        raise EmitError("pattern %s in a constructor-and-literal match" % k)
+
+    def match_hybrid(self, arms, terms, tys, env1, kk):
+        def arm(j):
+            if j == len(arms):
+                return "None (* no arm matches: unreachable in Rust (exhaustive match) *)"
+            p, g, body = arms[j]
+            while p.kind == "pref":
+                p = p.inner
+            binds, tests = [], []
+            if len(terms) > 1:
+                if p.kind == "pwild":
+                    pats = ["_"] * len(terms)
+                elif p.kind == "ptuple" and len(p.elems) == len(terms):
+                    pats = [self.hybrid_pat(x, t, binds, tests, tm) for x, t, tm in zip(p.elems, tys, terms)]
+                else:
+                    raise EmitError("arm pattern does not match the tuple scrutinee")
+            else:
+                pats = [self.hybrid_pat(p, tys[0], binds, tests, terms[0])]
+            env2 = env1
+            for rn, cn, t, mut in binds:
+                env2 = env2.bind(rn, cn, t, mut)
+            if g is not None:
+                pg = self.try_pure(g, env2)
+                if pg is None:
+                    raise EmitError("match guard that can panic")
+                tests.append(pg[0])
+            bcode = self.expr(body, env2, kk)
+            refutable = any(x != "_" for x in pats)
+            if not tests and not refutable:
+                return bcode
+            nxt = arm(j + 1)
+            pre = ""
+            if tests and refutable and "\n" in nxt:
+                n = self.fresh("next")
+                pre = "let %s := fun (_ : unit) =>\n%s in\n" % (n, ind(nxt, 4))
+                nxt = "%s tt" % n
+            inner = bcode if not tests else "if %s then\n%s\nelse\n%s" % (" && ".join(tests), ind(bcode), ind(nxt))
+            if not refutable:
+                return pre + inner
+            return pre + "match %s with\n| %s =>\n%s\n| %s =>\n%s\nend" % (
+                ", ".join(terms), ", ".join(pats), ind(inner, 4), ", ".join("_" for _ in terms), ind(nxt, 4))
+        return arm(0)
+
     def const_term(self, segs):
         c = self.v.get("consts", {}).get(segs[-1])
         if c is None:
@@ -986,6 +1224,8 @@ class Emitter:
                 else:
                     if not self.pat_is_ctor_like(pp, tys[0]) or (is_int(tys[0]) and pp.kind == "ppath"):
                         native = False
+            if any(t[0] == "enum" and self.v["enums"][t[1]].get("native", True) is False for t in tys):
+                native = False
             if native and not all(is_int(t) for t in tys):
                 def build(kk):
                     out = ["match %s with" % ", ".join(terms)]
@@ -1005,6 +1245,11 @@ class Emitter:
                     out.append("end")
                     return "\n".join(out)
                 return self.join_branches(env1, k, build)
+            if len(comps) == 1 and tys[0][0] == "res":
+                return self.join_branches(env1, k, lambda kk: self.match_result(e, terms[0], tys[0], env1, kk))
+            if self.needs_hybrid(e.arms, len(comps)):
+                return self.join_branches(env1, k, lambda kk: self.match_hybrid(e.arms, terms, tys, env1, kk))
+
             # if-chain
             def build(kk):
                 def arm(j):
@@ -1051,6 +1296,46 @@ class Emitter:
                     ts2.append(n)
             return "".join(pre) + with_scrut(ts2, tys, env1)
         return self.exprs(comps, env, k_sc)
+
+    def match_result(self, e, term, ty, env, kk):
+        """match on an io::Result whose arms carry literals / guards: `match r with inl v => if-chain | inr v => if-chain end`"""
+        errty = ("enum", self.v["result"]["enum"]) if self.v["result"].get("enum") else ("coq", self.v["result"]["err"])
+
+        def side(tag, inner):
+            v = self.fresh("v")
+
+            def arm(j):
+                if j == len(e.arms):
+                    return "None (* no arm matches: unreachable in Rust (exhaustive match) *)"
+                p, g, body = e.arms[j]
+                while p.kind == "pref":
+                    p = p.inner
+                binds = []
+                tests = []
+                if p.kind == "ptstruct" and p.segs[-1] in ("Ok", "Err") and len(p.elems) == 1:
+                    if p.segs[-1] != tag:
+                        return arm(j + 1)
+                    tt = self.pat_test(p.elems[0], v, inner, binds)
+                    if tt is not None:
+                        tests.append(tt)
+                elif p.kind != "pwild":
+                    raise EmitError("pattern %s in a match on a Result" % p.kind)
+                env2 = env
+                for rn, cn, t, mut in binds:
+                    env2 = env2.bind(rn, cn, t, mut)
+                if g is not None:
+                    pg = self.try_pure(g, env2)
+                    if pg is None:
+                        raise EmitError("match guard that can panic")
+                    tests.append(pg[0])
+                bcode = self.expr(body, env2, kk)
+                if not tests:
+                    return bcode
+                return "if %s then\n%s\nelse\n%s" % (" && ".join(tests), ind(bcode), arm(j + 1))
+            return v, arm(0)
+        vo, co = side("Ok", ty[1])
+        ve, ce = side("Err", errty)
+        return "match %s with\n| inl %s =>\n%s\n| inr %s =>\n%s\nend" % (term, vo, ind(co, 4), ve, ind(ce, 4))
 
     # -- calls ---------------------------------------------------------------
     def call_shape(self, shape, self_place, args, env, k):
@@ -1102,6 +1387,15 @@ class Emitter:
         if f.kind != "path":
             raise EmitError("call of a non-path expression")
         name = f.segs[-1]
+        if len(f.segs) == 1 and name in ("Ok", "Err") and self.res_sum():
+            if name == "Ok":
+                return self.expr(e.args[0], env, lambda t, ty, env1: k("(inl %s)" % t, ("res", ty), env1))
+            return self.expr(e.args[0], env, lambda t, ty, env1: k("(inr %s)" % t, ("res", UNKNOWN), env1))
+        if len(f.segs) == 1 and name in ("Ok", "Err") and self.res_ind() and len(e.args) == 1:
+            rv = self.v["result"]
+            if name == "Ok":
+                return self.expr(e.args[0], env, lambda t, ty, env1: k("(%s %s)" % (rv["ok"], t), ("result", ty, UNKNOWN), env1))
+            return self.expr(e.args[0], env, lambda t, ty, env1: k("(%s %s)" % (rv["err"], t), ("result", UNKNOWN, ty), env1))
         if len(f.segs) == 1 and name in ("Some", "Ok"):
             return self.expr(e.args[0], env, lambda t, ty, env1: k("(Some %s)" % t, ("opt", ty), env1))
         key = "::".join(f.segs[-2:]) if len(f.segs) >= 2 else name
@@ -1155,14 +1449,19 @@ class Emitter:
             if rty[0] == "coq":
                 tname = "coq"
             # translated methods of a struct
+            # a receiver that is no place (a call chain `a().b().c()`) and is only read: it has been
+            # evaluated just now, pass the term on instead of translating the expression a second time
+            recv = e.recv
+            if self.place_root(e.recv) is None:
+                recv = N("term", term=rt, ty=rty)
             shape = self.fn_shapes.get("%s::%s" % (tname, name))
             if shape is not None:
-                return self.call_shape(shape, e.recv, e.args, env1, k)
+                return self.call_shape(shape, recv if shape.get("self") == "in" else e.recv, e.args, env1, k)
             ent = self.v.get("methods", {}).get((tname, name)) or self.v.get("fns", {}).get("%s::%s" % (tname, name))
             if ent is not None:
                 if callable(ent):
                     return ent(self, e, rt, rty, env1, k)
-                return self.call_shape(ent, e.recv, e.args, env1, k)
+                return self.call_shape(ent, recv if ent.get("self") == "in" else e.recv, e.args, env1, k)
             b = getattr(self, "m_%s_%s" % (rty[0], name), None)
             if b is not None:
                 return b(e, rt, rty, env1, k)
@@ -1310,6 +1609,10 @@ class Emitter:
                     if r and r in env.vars:
                         if self.method_mutates(x, env):
                             add(r)
+                    # a `&mut` variable passed on by name to a method (as for calls below)
+                    for a in x.args:
+                        if a.kind == "path" and len(a.segs) == 1 and a.segs[0] in env.vars and env.vars[a.segs[0]].mut == "ref":
+                            add(a.segs[0])
                 elif x.kind == "call":
                     # a `&mut` variable passed on by name
                     for a in x.args:
@@ -1363,7 +1666,7 @@ class Emitter:
         stpat = "_" if not st else (st[0] if len(st) == 1 else "'(%s)" % ", ".join(st))
 
         def fin(envx, term):
-            return "Some (%s, %s)" % (self.tuple_of([envx.get(n).coq for n in cap]), term)
+            return "Some (%s, %s)" % (self.tuple_of([envx.by_decl(n, env.get(n).decl).coq for n in cap]), term)
         old = self.ctl
         oldpm = self.pure_mode
         self.pure_mode = 0
@@ -1425,6 +1728,9 @@ class Emitter:
         return self.expr(it, env, k1)
 
     def e_for(self, e, env, k):
+        lz = self.lazy_iter_of(e.iter, env)
+        if lz is not None:
+            return self.for_lazy(e, lz, env, k)
         st = self.assigned(e.body, env)
         ret = self.has_return(e.body)
 
@@ -1437,7 +1743,7 @@ class Emitter:
                 stn.append(c)
                 env2 = env2.rebind(n, c)
             stpat = "_" if not st else (stn[0] if len(st) == 1 else "'(%s)" % ", ".join(stn))
-            tup = lambda envx: self.tuple_of([envx.get(n).coq for n in st])
+            tup = lambda envx: self.tuple_of([envx.by_decl(n, env1.get(n).decl).coq for n in st])
             nxt, brk = ("LNext", "LBreak") if ret else ("BNext", "BBreak")
             old = self.ctl
             oldpm = self.pure_mode
@@ -1467,6 +1773,107 @@ class Emitter:
                 v, ind(self.ctl.ret(env1, v, UNKNOWN), 4))
         return self.iter_source(e.iter, env, k_src)
 
+    # -- lazy iterators (vocabulary `lazy_iters`) ----------------------------------
+    # `for x in recv.method(args) { body }` where the iterator borrows `recv` mutably and advances it
+    # one element per `next` (StripBytes::strip_next): the loop is a fuelled while over
+    # (cursor, assigned variables incl. recv); every `next` threads recv through the vocabulary's
+    # step function  next : cursor -> recv -> option (option elt * cursor * recv).
+    # entry: {(type name, method): {"new": coq fn of the call's arguments -> cursor, "next": coq fn,
+    #                               "elt": element type}}
+    def lazy_iter_of(self, it, env):
+        tab = self.v.get("lazy_iters")
+        if not tab or it.kind != "mcall":
+            return None
+        root = self.place_root(it.recv)
+        rv = env.get(root) if root else None
+        if rv is None or it.recv.kind not in ("path",):
+            return None
+        tname = rv.ty[1] if rv.ty[0] in ("struct", "enum") else rv.ty[0]
+        ent = tab.get((tname, it.name))
+        if ent is None:
+            return None
+        return (ent, root, it)
+
+    def for_lazy(self, e, lz, env, k):
+        ent, root, it = lz
+        fuel = self.loop_fuel()
+        acc = self.assigned(e.body, env)
+        st = [n for n in env.vars if n in acc or n == root]
+        ret = self.has_return(e.body)
+
+        def k_args(ats, _tys, env1):
+            cur0 = "(%s %s)" % (ent["new"], " ".join(ats)) if ats else ent["new"]
+            cur = self.fresh("it")
+            if ent.get("enter"):
+                # what creating the iterator does to the receiver (extract_next: capture.reset())
+                r0 = self.fresh(env1.get(root).coq.rstrip("0123456789") or root)
+                return "let %s := (%s %s) in\n%s" % (r0, ent["enter"], env1.get(root).coq,
+                                                     k_loop(ats, cur0, cur, env1.rebind(root, r0)))
+            return k_loop(ats, cur0, cur, env1)
+
+        def k_loop(ats, cur0, cur, env1):
+            env2 = env1
+            stn = []
+            for n in st:
+                c = self.fresh(env1.get(n).coq.rstrip("0123456789") or n)
+                stn.append(c)
+                env2 = env2.rebind(n, c)
+            # (a variable of the body that shadows a loop variable must not leak into the loop state)
+            tup = lambda envx, cu: self.tuple_of([cu] + [self.restrict(envx, env2).get(n).coq for n in st])
+            nxt, brk = ("LNext", "LBreak") if ret else ("BNext", "BBreak")
+            o = self.fresh("o")
+            cur1 = self.fresh("it")
+            r1 = self.fresh(env2.get(root).coq.rstrip("0123456789") or root)
+            env3 = env2.rebind(root, r1)
+            x = self.fresh("x")
+            old = self.ctl
+            oldpm = self.pure_mode
+            self.pure_mode = 0
+            if ret:
+                retf = lambda envx, t, ty: "Some (LRet (%s, %s))" % (tup(envx, cur1), t)
+            else:
+                retf = lambda envx, t, ty: (_ for _ in ()).throw(EmitError("return inside a loop translated without return"))
+            self.ctl = Ctl(retf, lambda envx: "Some (%s %s)" % (brk, tup(envx, cur1)), lambda envx: "Some (%s %s)" % (nxt, tup(envx, cur1)))
+            try:
+                body = self.bind_pattern(e.pat, x, ent["elt"], env3,
+                                         lambda env4: self.expr(e.body, env4, lambda _t, _ty, envx: "Some (%s %s)" % (nxt, tup(envx, cur1))))
+            finally:
+                self.ctl = old
+                self.pure_mode = oldpm
+            step = "'(%s, %s, %s) <- %s %s %s ;;\nmatch %s with\n| None => Some (%s %s)\n| Some %s =>\n%s\nend" % (
+                o, cur1, r1, ent["next"], cur, env2.get(root).coq, o, brk, tup(env3, cur1), x, ind(body, 4))
+            fterm = "(fun '(%s) =>\n%s)" % (", ".join([cur] + stn), ind(step, 4))
+            init = self.tuple_of([cur0] + [env1.get(n).coq for n in st])
+            if self.pure_mode:
+                raise NeedsBind()
+
+            def after(envx, kk):
+                """rebind the loop variables from a fresh tuple pattern; kk(pattern, env)"""
+                names = [self.fresh("it")]
+                env5 = envx
+                for n in st:
+                    c = self.fresh(envx.get(n).coq.rstrip("0123456789") or n)
+                    names.append(c)
+                    env5 = env5.rebind(n, c)
+                return kk("(" + ", ".join(names) + ")", env5)
+            if not ret:
+                r = self.fresh("st")
+                return "%s <- while_fuel0 %s %s %s ;;\n%s" % (
+                    r, fuel, fterm, init, after(env1, lambda pat, env5: "let '%s := %s in\n%s" % (pat, r, k("tt", UNIT, env5))))
+            r = self.fresh("lr")
+            v = self.fresh("rv")
+            return "%s <- while_fuel %s %s %s ;;\nmatch %s with\n| inl %s\n| inr %s\nend" % (
+                r, fuel, fterm, init, r,
+                after(env1, lambda pat, env5: "%s =>\n%s" % (pat, ind(k("tt", UNIT, env5), 4))),
+                after(env1, lambda pat, env5: "(%s, %s) =>\n%s" % (pat, v, ind(self.ctl.ret(env5, v, UNKNOWN), 4))))
+        return self.exprs(it.args, env, k_args)
+
+    # a closure as a value (bound by `let`, handed to a vocabulary function): the state-passing
+    # function of closure_st; its type records the captured (assigned) variables
+    def e_closure(self, e, env, k):
+        ptys = [self.ty_of_ast(ty) if ty is not None else UNKNOWN for _p, ty in e.params]
+        return self.closure_st(e, ptys, env, lambda fterm, cap, env1: k(fterm, ("closure", tuple(cap), tuple(ptys)), env1))
+
     def e_while(self, e, env, k):
         return self.while_like(e.cond, e.body, env, k)
 
@@ -1475,6 +1882,9 @@ class Emitter:
 
     def while_like(self, cond, bodyblk, env, k):
         fuel = self.loop_fuel()
+        if callable(fuel):
+            fuel = fuel(env)      # a fuel expression over the variables' current Coq names
+        rs = bool(self.v.get("loop_ret_state"))   # opt-in: a `return` inside the loop carries the loop variables
         probe = N("block", stmts=[N("expr", e=cond, semi=True, attrs=[])] if cond is not None and cond.kind != "letcond" else
                   ([N("expr", e=cond.e, semi=True, attrs=[])] if cond is not None else []), tail=bodyblk)
         st = self.assigned(probe, env)
@@ -1486,12 +1896,12 @@ class Emitter:
             stn.append(c)
             env2 = env2.rebind(n, c)
         stpat = "_" if not st else (stn[0] if len(st) == 1 else "'(%s)" % ", ".join(stn))
-        tup = lambda envx: self.tuple_of([envx.get(n).coq for n in st])
+        tup = lambda envx: self.tuple_of([envx.by_decl(n, env.get(n).decl).coq for n in st])
         nxt, brk = ("LNext", "LBreak") if ret else ("BNext", "BBreak")
         old = self.ctl
         oldpm = self.pure_mode
         self.pure_mode = 0
-        self.ctl = Ctl((lambda envx, t, ty: "Some (LRet %s)" % t) if ret else old.ret,
+        self.ctl = Ctl(((lambda envx, t, ty: "Some (LRet (%s, %s))" % (tup(envx), t)) if rs else (lambda envx, t, ty: "Some (LRet %s)" % t)) if ret else old.ret,
                        lambda envx: "Some (%s %s)" % (brk, tup(envx)), lambda envx: "Some (%s %s)" % (nxt, tup(envx)))
         try:
             run_body = lambda envb: self.expr(bodyblk, envb, lambda _t, _ty, envx: "Some (%s %s)" % (nxt, tup(envx)))
@@ -1515,12 +1925,24 @@ class Emitter:
         r = self.fresh("lr")
         s2 = self.fresh("st")
         v = self.fresh("rv")
+        if rs:
+            s3 = self.fresh("st")
+            return "%s <- while_fuel %s %s %s ;;\nmatch %s with\n| inl %s =>\n%s\n| inr (%s, %s) =>\n%s\nend" % (
+                r, fuel, fterm, init, r, s2, ind(self.unpack_state(st, s2, env, lambda env4: k("tt", UNIT, env4)), 4),
+                s3, v, ind(self.unpack_state(st, s3, env, lambda env4: self.ctl.ret(env4, v, UNKNOWN)), 4))
         return "%s <- while_fuel %s %s %s ;;\nmatch %s with\n| inl %s =>\n%s\n| inr %s =>\n%s\nend" % (
             r, fuel, fterm, init, r, s2, ind(self.unpack_state(st, s2, env, lambda env4: k("tt", UNIT, env4)), 4),
             v, ind(self.ctl.ret(env, v, UNKNOWN), 4))
 
     def e_try(self, e, env, k):
         def k1(t, ty, env1):
+            if ty[0] == "res":
+                if self.pure_mode:
+                    raise NeedsBind()
+                x = self.fresh("q")
+                er = self.fresh("err")
+                return "match %s with\n| inl %s =>\n%s\n| inr %s =>\n%s\nend" % (
+                    t, x, ind(k(x, ty[1], env1), 4), er, ind(self.ctl.ret(env1, "(inr %s)" % er, ("res", UNKNOWN)), 4))
             if ty[0] != "opt":
                 raise EmitError("? on %r" % (ty,))
             if self.pure_mode:
@@ -1564,9 +1986,11 @@ class Emitter:
             self.counter[cn] = 1
         outs = []
         if shape["self"]:
-            sn = self.fresh(self.v["structs"][struct].get("var", "p"))
-            env = env.bind("self", sn, ("struct", struct), "ref" if shape["self"] == "inout" else False)
-            binders.append("(%s : %s)" % (sn, self.coq_ty(("struct", struct))))
+            # `impl <enum>`: self is a value of the vocabulary enum
+            sty = ("enum", struct) if struct not in self.v.get("structs", {}) and struct in self.v.get("enums", {}) else ("struct", struct)
+            sn = self.fresh(self.v["structs"][struct].get("var", "p") if sty[0] == "struct" else self.v["enums"][struct].get("var", "a"))
+            env = env.bind("self", sn, sty, "ref" if shape["self"] == "inout" else False)
+            binders.append("(%s : %s)" % (sn, self.coq_ty(sty)))
             if shape["self"] == "inout":
                 outs.append("self")
         for (pat, ty), (mode, pty) in zip(fn.params, shape["params"]):
@@ -1588,7 +2012,7 @@ class Emitter:
         self.monadic = False
 
         def finish(envx, t, ty):
-            parts = [envx.get(n).coq for n in outs]
+            parts = [envx.by_decl(n, env.get(n).decl).coq for n in outs]
             if ret != UNIT:
                 parts.append(t)
             val = self.tuple_of(parts) if parts else "tt"
